@@ -60,7 +60,9 @@ class Stats:
             self.known[k] = self.known.get(k, 0) + v
         self.caps += o.caps
         for k, v in o.extra.items():
-            if isinstance(v, (int, float)):
+            if isinstance(v, (int, float)) and k.startswith("max_"):
+                self.extra[k] = max(self.extra.get(k, 0), v)
+            elif isinstance(v, (int, float)):
                 self.extra[k] = self.extra.get(k, 0) + v
             elif isinstance(v, list):
                 self.extra.setdefault(k, [])
@@ -207,10 +209,20 @@ def _limit_memory():
 
 
 def _worker(job):
-    modname, fname, arg, tier = job
+    global BUILD_OVERRIDE
+    modname, fname, arg, tier = job[:4]
+    build = job[4] if len(job) > 4 else None
     try:
         mod = importlib.import_module(modname)
-        st = getattr(mod, fname)(arg, tier)
+        BUILD_OVERRIDE = build
+        try:
+            st = getattr(mod, fname)(arg, tier)
+        finally:
+            BUILD_OVERRIDE = None
+        if build:
+            st.extra = {"programs_on_extra_builds": st.evaluations}
+            for v in st.violations:
+                v["note"] = ((v.get("note") or "") + " [own corpus re-run on build %s]" % build).strip()
         return ("ok", st)
     except MachineryError as e:
         return ("machinery", str(e))
@@ -223,11 +235,20 @@ def run_property(pid, tier, jobs=None):
     modname = "props.%s" % pid.lower()
     mod = importlib.import_module(modname)
     seed = int(os.environ.get("VERIF_SEED", "0") or 0)
-    needed = mod.builds_needed(tier)
+    needed = list(mod.builds_needed(tier))
     total = Stats()
+    # the property's own shards re-run on other builds of the crate (checked-arithmetic profile, vector paths, 32-bit backend):
+    # each observation is compared with the same model; a configuration that does not build is skipped and reported, not a verdict
+    extra = []
+    if hasattr(mod, "extra_builds") and not os.environ.get("VERIF_NO_EXTRA_BUILDS"):
+        extra = [(b, sel) for (b, sel) in mod.extra_builds(tier) if b not in needed]
+    extra_names = [b for b, _ in extra]
     # builds (always from /repo's current working tree)
-    res = builds.build_all(needed)
-    build_fail = {n: log for n, (ok, log) in res.items() if not ok}
+    res = builds.build_all(needed + extra_names)
+    build_fail = {n: log for n, (ok, log) in res.items() if not ok and n in needed}
+    extra_unavailable = sorted(n for n, (ok, log) in res.items() if not ok and n in extra_names)
+    for n in extra_unavailable:
+        sys.stderr.write("[%s] extra configuration %s does not build on this tree; own corpus not re-run on it\n" % (pid, n))
     if build_fail:
         handled = getattr(mod, "on_build_failure", None)
         unhandled = dict(build_fail)
@@ -248,6 +269,12 @@ def run_property(pid, tier, jobs=None):
     shards = mod.shards(tier) if not build_fail else mod.shards_after_build_failure(tier, build_fail)
     nproc = jobs or int(os.environ.get("VERIF_JOBS", "0") or 0) or min(16, os.cpu_count() or 4)
     joblist = [(modname, f, a, tier) for (f, a) in shards]
+    if not build_fail:
+        for b, sel in extra:
+            if b in extra_unavailable:
+                continue
+            joblist += [(modname, f, a, tier, b) for (f, a) in shards if sel is None or sel(f, a)]
+    total.extra["extra_builds_unavailable"] = extra_unavailable
     machinery = []
     if joblist:
         if nproc == 1 or len(joblist) == 1:
@@ -282,7 +309,7 @@ def run_property(pid, tier, jobs=None):
         with open(path, "w") as f:
             json.dump(v, f, indent=1, default=str)
         replay_paths.append(path)
-    write_evidence(pid, tier, seed, total, wall, mod, needed)
+    write_evidence(pid, tier, seed, total, wall, mod, needed + [b for b in extra_names if b not in extra_unavailable])
     sys.stderr.write("[%s %s] programs=%d ops=%d states=%d traces=%d distinct_cases=%d distinct_obs=%d det_replays=%d "
                      "violations=%d known=%s wall=%.1fs\n"
                      % (pid, tier, total.evaluations, total.transitions, total.states, total.traces, len(total.cases),
@@ -337,7 +364,7 @@ def replay(path):
         mod = importlib.import_module("props.%s" % v["property"].lower())
     except Exception:
         mod = None
-    if mod is not None and hasattr(mod, "replay") and v["build"] in ("ctvictim",):
+    if mod is not None and hasattr(mod, "replay") and v["build"] in ("ctvictim", "ctvictim32"):
         ok, log = builds.build(v["build"])
         if not ok:
             print("MACHINERY: cannot build %s" % v["build"])
